@@ -6,7 +6,8 @@ Two coroutines share one event loop (DESIGN 4.4: code between two suspension poi
 * **main** — `async with Gateway(transport, Config(persistence_file=…)): body`
     `__aenter__`: `await persistence.load()`; `await persistence.start()` (creates the saver task);
                   `await transport.connect()`, on failure `await persistence.stop()` and re-raise;
-    body;
+    body (ends normally, by an exception, or by cancellation of the task running the statement:
+          a `CancelledError` thrown into the body is just the exception in flight for `__aexit__`);
     `__aexit__`:  `try: await transport.disconnect()  finally: await persistence.stop()`;
     `stop`:       `task.cancel()`; `with suppress(CancelledError): await task`; `await self.save()`.
 * **saver** — `while True: await self.save(); try: await asyncio.sleep(SAVE_INTERVAL) except CancelledError: break`,
@@ -45,9 +46,14 @@ def awaitSuppressesCancel : Bool := pyCaught .CancelledError (clause Gen.excPers
 /-- Would `save`'s `except OSError` turn a `CancelledError` into a `PersistenceWriteError`? -/
 def saveCatchesCancel : Bool := pyCaught .CancelledError (clause Gen.excPersistSave 0)
 
-/-- What can propagate out of the context statement. -/
+/-- What can propagate out of the context statement.
+* `cancelled` — a `CancelledError` that came from awaiting the cancelled *saver* task and leaked out
+  of `stop()` (the defect class: the final save is skipped);
+* `bodyCancel` — the `CancelledError` thrown into the body because the task running the context
+  statement was cancelled (`asyncio.timeout`, Ctrl-C, a parent `TaskGroup`, …).  It is an ordinary
+  exception in flight for `__aexit__`: a legitimate way of leaving the context. -/
 inductive Exc where
-  | loadErr | connectErr | bodyErr | disconnectErr | saveErr | cancelled
+  | loadErr | connectErr | bodyErr | disconnectErr | saveErr | cancelled | bodyCancel
   deriving DecidableEq, Repr
 
 /-- The executor await a `save` is suspended in.  `unwinding` = the `close` performed by
@@ -84,7 +90,14 @@ structure Faults where
   bodyRaises : Bool := false
   disconnectFails : Bool := false
   finalSaveFails : Bool := false
+  bodyCancelled : Bool := false      -- the body ends because the task running the context is cancelled
   deriving DecidableEq, Repr
+
+/-- How the body ends: by cancellation of the task that runs the context statement, by an exception
+of its own, or normally.  The two flags are alternatives; if both are set the cancellation wins (the
+body is cancelled before it gets to raise — the harness parks the body for cancellation first, too). -/
+def bodyExit (f : Faults) : Option Exc :=
+  if f.bodyCancelled then some .bodyCancel else if f.bodyRaises then some .bodyErr else none
 
 /-- The persistence file relative to registry versions. -/
 inductive FileSt where
@@ -172,7 +185,7 @@ def mainStep (s : Sys) : Sys :=
   | .connect =>
     if s.faults.connectFails then { s with pending := some .connectErr, main := .stopCancel }
     else { s with entered := true, main := .body }
-  | .body => { s with pending := if s.faults.bodyRaises then some .bodyErr else none, main := .disconnect }
+  | .body => { s with pending := bodyExit s.faults, main := .disconnect }
   | .disconnect =>
     { s with disconnectTried := true,
              pending := if s.faults.disconnectFails then some .disconnectErr else s.pending,
@@ -207,14 +220,14 @@ def run (s : Sys) (cs : List Choice) : Sys := cs.foldl step s
 
 /-- The exception the context statement has to raise for a fault combination (when the saver
 machinery is in order): the final save's error wins over the disconnect's, which wins over the
-body's; a connect failure is re-raised unless the final save fails too. -/
+body's (its own exception or the cancellation of the task running it, `bodyExit`); a connect failure
+is re-raised unless the final save fails too. -/
 def expectedOutcome (f : Faults) : Option Exc :=
   if f.loadFails then some .loadErr
   else if f.connectFails then (if f.finalSaveFails then some .saveErr else some .connectErr)
   else if f.finalSaveFails then some .saveErr
   else if f.disconnectFails then some .disconnectErr
-  else if f.bodyRaises then some .bodyErr
-  else none
+  else bodyExit f
 
 /-- Saves the saver began at a virtual time within `[t0, t0 + T]`. -/
 def startsWithin (s : Sys) (T : Nat) : Nat :=
